@@ -19,10 +19,11 @@ CONSTANT N              \* length of the scripts
 VARIABLES live, nf, sq, hist    \* session live, its number of flows, it has a session-level QER, operations so far
 vars == <<live, nf, sq, hist>>
 
-\* establishment shapes: number of flows (1, 2), session-level QER (s) or none (n), flow QERs without (z) / with (g) guaranteed rates
-Shapes == {"E:1sz", "E:1sg", "E:1nz", "E:1ng", "E:2sz", "E:2sg", "E:2nz", "E:2ng"}
-Flows(sh) == IF sh \in {"E:1sz", "E:1sg", "E:1nz", "E:1ng"} THEN 1 ELSE 2
-HasSq(sh) == sh \in {"E:1sz", "E:1sg", "E:2sz", "E:2sg"}
+\* establishment shapes: number of flows (1, 2), session-level QER (s) or none (n), flow QERs without (z) / with (g) guaranteed rates,
+\* or without guaranteed rate and with a maximum rate above the session-level QER's (b)
+Shapes == {"E:1sz", "E:1sg", "E:1sb", "E:1nz", "E:1ng", "E:2sz", "E:2sg", "E:2sb", "E:2nz", "E:2ng"}
+Flows(sh) == IF sh \in {"E:1sz", "E:1sg", "E:1sb", "E:1nz", "E:1ng"} THEN 1 ELSE 2
+HasSq(sh) == sh \in {"E:1sz", "E:1sg", "E:1sb", "E:2sz", "E:2sg", "E:2sb"}
 
 Init == live = FALSE /\ nf = 0 /\ sq = FALSE /\ hist = <<>>
 
